@@ -6,13 +6,13 @@ from props import dwtfam
 
 ID = 'C19'
 PROPS_MODULE = 'Props.C19'
-THEOREMS = ['C19_kernel_factorises', 'C19_analysis_zero', 'C19_analysis_sym_reflect', 'C19_analysis_per', 'C19_synthesis']
+THEOREMS = ['C19_kernel_factorises', 'C19_analysis_zero', 'C19_analysis_sym_reflect', 'C19_analysis_per', 'C19_synthesis', 'C19_synthesis_per']
 VO = ['theories/Props/C19.vo', 'theories/Run/RunDwt.vo']
 RULE = ('correspondence A: afb2d_nonsep / sfb2d_nonsep AND the separable afb2d / sfb2d on the same integer filters and inputs vs their models (2- and 4-filter forms, '
         'row/column filters of different lengths, sizes incl. odd and below the filter length, 4 modes), exact; oracle: the two functional APIs against each other on '
         'real wavelets, 2- and 4-filter forms, all sizes of the grid. distinct by (function, Ly, Lx, HxW, mode, form).')
 TRUSTED = TRUSTED_COMMON
-ASSUMES = ['theorem: the outer-product kernel of the non-separable model factorises into the column correlation of row correlations (for every stride/padding); and the composed equalities on the models: analysis in zero / symmetric / reflect mode (C19_analysis_zero, C19_analysis_sym_reflect), analysis in periodization mode for even filter lengths not longer than the even-extended image (C19_analysis_per: extension of both axes, two rolls, one strided 2-D convolution, two wrap-around folds, crop) and synthesis in the four non-periodization modes for any four bands (C19_synthesis), every size and filter lengths; the periodization SYNTHESIS pipeline is decided by the exact correspondence of both models with the code and by the oracle']
+ASSUMES = ['theorem: the outer-product kernel of the non-separable model factorises into the column correlation of row correlations (for every stride/padding); and the composed equalities on the models: analysis in zero / symmetric / reflect mode (C19_analysis_zero, C19_analysis_sym_reflect), analysis in periodization mode for even filter lengths not longer than the even-extended image (C19_analysis_per: extension of both axes, two rolls, one strided 2-D convolution, two wrap-around folds, crop) and synthesis in the four non-periodization modes for any four bands (C19_synthesis), every size and filter lengths, and synthesis in periodization mode for even filter lengths with L-2 <= the output length on each axis (C19_synthesis_per: four transposed convolutions, two wrap-around folds, crop, two rolls)']
 
 
 def corr_jobs(tier, rng):
